@@ -361,23 +361,24 @@ def r3_r5_counts(ctx):
     rows = [n for n in docstring_free(run_.body) if isinstance(n, ast.For)]
     ctx.expect_count('R4', 'row loop in Importer.run', len(rows), 1)
     row_loop = rows[0]
-    incs = [n for n in walk_local(run_.node) if isinstance(n, (ast.Assign, ast.AugAssign))
-            and any(src(t) == 'self._tree_stage' for t in (n.targets if isinstance(n, ast.Assign) else [n.target]))]
     at = f'{run_.module.relpath}:{row_loop.lineno}'
-    ok_inc = len(incs) == 1 and incs[0] in row_loop.body and (
-        (isinstance(incs[0], ast.Assign) and src(incs[0].value) in ('self._tree_stage + 1', '1 + self._tree_stage'))
-        or (isinstance(incs[0], ast.AugAssign) and isinstance(incs[0].op, ast.Add) and src(incs[0].value) == '1'))
-    if ok_inc:
-        idx = row_loop.body.index(incs[0])
-        before = row_loop.body[:idx]
-        # only the empty-row skip may precede
-        ok_inc = all(isinstance(s, ast.If) and 'len(row)' in src(s.test) and {p.end for p in enumerate_paths(s.body)} == {'continue'}
-                     and not s.orelse for s in before)
-        after = row_loop.body[idx + 1:]
-        ok_inc = ok_inc and any(loops[0] in list(ast.walk(s)) for s in after)
+    # on every path through one turn of the row loop: a row with cells adds exactly 1 to the stage counter, before any of
+    # its cells is read; a skipped (empty) row adds nothing
+    facts = counter_on_row_paths(ctx, run_, 'self._tree_stage')
+    ok_inc = bool(facts)
+    incs = []
+    for sp, inc_idx, work_idx, active, bad in facts:
+        incs.extend(src(sp.events[i].node) for i in inc_idx)
+        if bad:
+            ok_inc = False
+        elif not active:
+            ok_inc = ok_inc and not inc_idx
+        else:
+            ok_inc = ok_inc and len(inc_idx) == 1 and (not work_idx or inc_idx[0] < min(work_idx))
+    incs = sorted(set(incs))
     ctx.check(ok_inc, 'R4', at, run_.qualname, 'stage-counter',
               'the stage counter is incremented exactly once per non-empty row, before the cells are read',
-              f'stage counter updates: {[f"{src(i)} @ line {i.lineno}" for i in incs]}')
+              f'stage counter updates: {incs}: not exactly one, before the cells, on every path of a row with cells')
     empty = [s for s in row_loop.body if isinstance(s, ast.If) and 'len(row)' in src(s.test)]
     if empty:
         fm = G._formula(empty[0].test)
@@ -464,6 +465,36 @@ def r5_arity(ctx, sop):
                       f'{label}: continuations pushed = {sorted(got, key=str)}, expected {exp}'
                       + (f' (depends on {unknown})' if len(got) > 1 and unknown else ''))
     ctx.count('R5.spine_operator_paths', len(forms))
+
+
+def counter_on_row_paths(ctx, run_, attr):
+    """[(SymPath, indices of `attr += 1` events, indices of the events that read cells, row has cells?, other store to attr?)] for
+    every non-raising path through one turn of the row loop of Importer.run."""
+    rows = [n for n in docstring_free(run_.body) if isinstance(n, ast.For)]
+    if len(rows) != 1:
+        raise AnalysisError(f'{run_.loc}: the row loop of Importer.run is not recognised')
+    out = []
+    for sp in symex.sym_paths(rows[0].body, limit=60000, fi=run_):
+        if sp.end == 'raise':
+            continue
+        inc_idx, work_idx, bad, active = [], [], False, False
+        for i, e in enumerate(sp.events):
+            if e.kind == 'store' and src(e.target) == attr:
+                n = e.node
+                plus1 = (isinstance(n, ast.AugAssign) and isinstance(n.op, ast.Add) and isinstance(e.expr, ast.Constant) and e.expr.value == 1) or \
+                        (isinstance(n, ast.Assign) and src(e.expr) in (f'{attr} + 1', f'1 + {attr}'))
+                if plus1:
+                    inc_idx.append(i)
+                else:
+                    bad = True
+            if e.kind in ('iter', 'skip') and isinstance(e.node, ast.For):
+                work_idx.append(i)
+            if e.kind == 'expr' and isinstance(e.expr, ast.Call) and (src(e.expr.func).startswith('self._compute_') or _is_add_node(e.expr)):
+                work_idx.append(i)
+            if e.kind in ('expr', 'store', 'iter', 'skip'):
+                active = True
+        out.append((sp, inc_idx, work_idx, active, bad))
+    return out
 
 
 # --------------------------------------------------------------------------- R4 provenance
